@@ -89,7 +89,7 @@ VHstoredatam(HFILEID f, const char *field, const uint8 *buf, int32 n, int32 data
              const char *vsclass, int32 order)
 {
     int32 ref;
-    int32 vs;
+    int32 vs        = FAIL;
     int32 ret_value = SUCCEED;
 
     /* (a negative count must not be mistaken for VSwrite's FAIL below) */
@@ -115,12 +115,21 @@ VHstoredatam(HFILEID f, const char *field, const uint8 *buf, int32 n, int32 data
         HGOTO_ERROR(DFE_BADVSCLASS, FAIL);
 
     ref = VSQueryref(vs);
-    if (VSdetach(vs) == FAIL)
-        HGOTO_ERROR(DFE_CANTDETACH, FAIL);
+    {
+        int32 status = VSdetach(vs);
+
+        vs = FAIL; /* detached, or beyond help: no second attempt below */
+        if (status == FAIL)
+            HGOTO_ERROR(DFE_CANTDETACH, FAIL);
+    }
 
     ret_value = ((int32)ref);
 
 done:
+    /* a refused request does not leave the vdata it attached attached */
+    if (ret_value == FAIL && vs != FAIL)
+        VSdetach(vs);
+
     return ret_value;
 } /* VHstoredatam */
 
